@@ -211,7 +211,7 @@ def make_case(seed, n):
     return {"n": n, "seed": seed}
 
 
-def run_shard(rec, shard, nshards):
+def _run_shard_workload(rec, shard, nshards):
     common.loop(rec, shard, nshards, N[rec.tier], CAP[rec.tier], lambda n: run_case(rec, make_case(rec.seed, n)))
 
 
@@ -256,3 +256,14 @@ def canaries(rec):
     out.append(("envelope byte changed", bool(check(write(good, 0x0E1EF340), write(env[:-1] + b"\0", 0x0E100000),
                                                     0x0E1EF340, 0x0E100000, env, 6))))
     return out
+
+
+FAULT_PLANE_OPS = ('update',)
+
+
+def run_shard(rec, shard, nshards):
+    _run_shard_workload(rec, shard, nshards)
+    if shard == 5 % nshards:
+        # complete enumeration of the single file-boundary faults of this property's operations (faultplane.py)
+        from . import faultplane
+        faultplane.run(rec, ID, FAULT_PLANE_OPS)
